@@ -43,30 +43,32 @@ pub struct Prop {
     pub also_release: bool,
     /// additionally run the binary built with log4rs' background_rotation feature
     pub also_bg: bool,
+    /// multipliers on the per-part case budgets written in the modules (quick, thorough)
+    pub scale: (u64, u64),
 }
 
 fn props() -> Vec<Prop> {
     vec![
-        Prop { id: "C01", run: c01::run, replay: c01::replay, meta: c01::meta, workers: (1, 16), also_release: false, also_bg: false },
-        Prop { id: "C02", run: c02::run, replay: c02::replay, meta: c02::meta, workers: (8, 16), also_release: false, also_bg: false },
-        Prop { id: "C03", run: c03::run, replay: c03::replay, meta: c03::meta, workers: (1, 16), also_release: false, also_bg: false },
-        Prop { id: "C04", run: c04::run, replay: c04::replay, meta: c04::meta, workers: (4, 16), also_release: false, also_bg: false },
-        Prop { id: "C05", run: c05::run, replay: c05::replay, meta: c05::meta, workers: (4, 16), also_release: false, also_bg: true },
-        Prop { id: "C06", run: c06::run, replay: c06::replay, meta: c06::meta, workers: (4, 16), also_release: false, also_bg: false },
-        Prop { id: "C07", run: c07::run, replay: c07::replay, meta: c07::meta, workers: (4, 16), also_release: false, also_bg: true },
-        Prop { id: "C08", run: c08::run, replay: c08::replay, meta: c08::meta, workers: (8, 16), also_release: false, also_bg: false },
-        Prop { id: "C09", run: c09::run, replay: c09::replay, meta: c09::meta, workers: (1, 8), also_release: true, also_bg: false },
-        Prop { id: "C11", run: c11::run, replay: c11::replay, meta: c11::meta, workers: (4, 16), also_release: true, also_bg: false },
-        Prop { id: "C12", run: c12::run, replay: c12::replay, meta: c12::meta, workers: (1, 16), also_release: false, also_bg: false },
-        Prop { id: "C13", run: c13::run, replay: c13::replay, meta: c13::meta, workers: (1, 16), also_release: false, also_bg: false },
-        Prop { id: "C14", run: c14::run, replay: c14::replay, meta: c14::meta, workers: (8, 16), also_release: false, also_bg: false },
-        Prop { id: "C15", run: c15::run, replay: c15::replay, meta: c15::meta, workers: (8, 16), also_release: false, also_bg: false },
-        Prop { id: "C16", run: c16::run, replay: c16::replay, meta: c16::meta, workers: (8, 16), also_release: false, also_bg: false },
-        Prop { id: "C17", run: c17::run, replay: c17::replay, meta: c17::meta, workers: (4, 16), also_release: false, also_bg: false },
-        Prop { id: "C18", run: c18::run, replay: c18::replay, meta: c18::meta, workers: (8, 16), also_release: false, also_bg: false },
-        Prop { id: "C19", run: c19::run, replay: c19::replay, meta: c19::meta, workers: (4, 16), also_release: false, also_bg: false },
-        Prop { id: "C20", run: c20::run, replay: c20::replay, meta: c20::meta, workers: (2, 16), also_release: false, also_bg: false },
-        Prop { id: "C10", run: c10::run, replay: c10::replay, meta: c10::meta, workers: (1, 16), also_release: false, also_bg: false },
+        Prop { id: "C01", run: c01::run, replay: c01::replay, meta: c01::meta, workers: (4, 16), also_release: false, also_bg: false, scale: (30, 100) },
+        Prop { id: "C02", run: c02::run, replay: c02::replay, meta: c02::meta, workers: (8, 16), also_release: false, also_bg: false, scale: (10, 10) },
+        Prop { id: "C03", run: c03::run, replay: c03::replay, meta: c03::meta, workers: (4, 16), also_release: false, also_bg: false, scale: (10, 20) },
+        Prop { id: "C04", run: c04::run, replay: c04::replay, meta: c04::meta, workers: (8, 16), also_release: false, also_bg: false, scale: (5, 10) },
+        Prop { id: "C05", run: c05::run, replay: c05::replay, meta: c05::meta, workers: (8, 16), also_release: false, also_bg: true, scale: (3, 5) },
+        Prop { id: "C06", run: c06::run, replay: c06::replay, meta: c06::meta, workers: (4, 16), also_release: false, also_bg: false, scale: (10, 10) },
+        Prop { id: "C07", run: c07::run, replay: c07::replay, meta: c07::meta, workers: (4, 16), also_release: false, also_bg: true, scale: (3, 5) },
+        Prop { id: "C08", run: c08::run, replay: c08::replay, meta: c08::meta, workers: (8, 16), also_release: false, also_bg: false, scale: (2, 1) },
+        Prop { id: "C09", run: c09::run, replay: c09::replay, meta: c09::meta, workers: (4, 8), also_release: true, also_bg: false, scale: (3, 3) },
+        Prop { id: "C11", run: c11::run, replay: c11::replay, meta: c11::meta, workers: (4, 16), also_release: true, also_bg: false, scale: (5, 5) },
+        Prop { id: "C12", run: c12::run, replay: c12::replay, meta: c12::meta, workers: (8, 16), also_release: false, also_bg: false, scale: (2, 1) },
+        Prop { id: "C13", run: c13::run, replay: c13::replay, meta: c13::meta, workers: (4, 16), also_release: false, also_bg: false, scale: (10, 20) },
+        Prop { id: "C14", run: c14::run, replay: c14::replay, meta: c14::meta, workers: (8, 16), also_release: false, also_bg: false, scale: (5, 2) },
+        Prop { id: "C15", run: c15::run, replay: c15::replay, meta: c15::meta, workers: (8, 16), also_release: false, also_bg: false, scale: (5, 3) },
+        Prop { id: "C16", run: c16::run, replay: c16::replay, meta: c16::meta, workers: (8, 16), also_release: false, also_bg: false, scale: (3, 1) },
+        Prop { id: "C17", run: c17::run, replay: c17::replay, meta: c17::meta, workers: (4, 16), also_release: false, also_bg: false, scale: (5, 10) },
+        Prop { id: "C18", run: c18::run, replay: c18::replay, meta: c18::meta, workers: (8, 16), also_release: false, also_bg: false, scale: (1, 1) },
+        Prop { id: "C19", run: c19::run, replay: c19::replay, meta: c19::meta, workers: (4, 16), also_release: false, also_bg: false, scale: (5, 5) },
+        Prop { id: "C20", run: c20::run, replay: c20::replay, meta: c20::meta, workers: (4, 16), also_release: false, also_bg: false, scale: (5, 10) },
+        Prop { id: "C10", run: c10::run, replay: c10::replay, meta: c10::meta, workers: (4, 16), also_release: false, also_bg: false, scale: (5, 5) },
     ]
 }
 
@@ -107,6 +109,7 @@ fn main() {
     // one fixed-offset zone so that (utc) and (local) differ and no DST edge is ever hit;
     // children that study time zones (C16) set their own TZ before chrono is first used
     std::env::set_var("LV_SET", "envdir");
+    std::env::set_var("LV_BRACES", "b{}r");
     std::env::remove_var("LV_UNSET");
     if std::env::var_os("LV_KEEP_TZ").is_none() {
         std::env::set_var("TZ", "<+0545>-5:45");
@@ -133,7 +136,8 @@ fn main() {
             let w: u32 = args[5].parse().unwrap();
             let all = props();
             let p = all.iter().find(|p| p.id == id).unwrap_or_else(|| usage());
-            let run = Run::new(id, tier, seed_from_env(), (k, w), &profile_name());
+            let mut run = Run::new(id, tier, seed_from_env(), (k, w), &profile_name());
+            run.scale = tier.pick(p.scale.0, p.scale.1);
             (p.run)(&run);
             let st = run.stats.replace(Stats::default());
             std::fs::write(&args[6], serde_json::to_string(&st).unwrap()).expect("write worker stats");
@@ -253,7 +257,8 @@ fn parent(id: &str, tier: Tier) -> i32 {
     let mut code = 0;
     let rel_bin = std::env::var("LV_REL_BIN").ok();
     if w == 1 && !p.also_release && !p.also_bg {
-        let run = Run::new(id, tier, seed, (0, 1), &profile_name());
+        let mut run = Run::new(id, tier, seed, (0, 1), &profile_name());
+        run.scale = tier.pick(p.scale.0, p.scale.1);
         (p.run)(&run);
         total = run.stats.replace(Stats::default());
         let _ = std::fs::remove_dir_all(&run.tmp);
